@@ -744,7 +744,7 @@ func init() {
 		r.Notes = append(r.Notes, "includes the function-level differential of fixAction/fixSeq/fixChecks (hook coercion.VerifFix*, harness/fixdiff_test.go): random object states incl. Stopped and unended attempts, complete images compared with Model/Fix.fixAction, Model/FixFull.fixSeqFull, Model/FixFull.fixChecks")
 	}
 	campaigns["C10"] = func(r *Result) {
-		r.Rule = "same crash enumeration as C09 (every write prefix; double crashes on a subset); monitors: the recovered plan reaches Completed/Failed within the watchdog, nothing is left Running in the store, deferred checks of entered non-bypassed scopes have a verdict, and (scripts being action-only, configuration schedule-independent) plan/block/sequence statuses equal those of the uninterrupted run; non-trivial = cut strictly inside the run; distinct by (spec, cut[, cut2])"
+		r.Rule = "same crash enumeration as C09 (every write prefix; double crashes on a subset); monitors: the recovered plan reaches Completed/Failed within the watchdog, nothing is left Running in the store, deferred checks of entered non-bypassed scopes have a verdict, and (scripts being action-only, configuration schedule-independent) the plan's outcome equals that of the uninterrupted run (differences of inner statuses are counted, not judged); stored corpus plans (D21, D27, D29, C03-A, C03-D witnesses) run first; non-trivial = cut strictly inside the run; distinct by (spec, cut[, cut2])"
 		crashCampaign("C10", r, 40, 2000, true)
 	}
 }
